@@ -40,6 +40,7 @@ def run(chk: Check) -> None:
     run_severity_by_first_marker(chk, ix)
     from .c07 import run_line_spans_inclusive
     run_line_spans_inclusive(chk, ix, "R13.15")
+    run_code_selection_is_keyed(chk, ix)
     aei = ix.func("mypy.errors.Errors.add_error_info")
     g = CFG(aei.node)
 
@@ -703,3 +704,20 @@ def run_severity_by_first_marker(chk: Check, ix) -> None:
         r.violation(key, f.loc(bare[0]), f"`{norm(bare[0])}` and `{norm(bare[1])}` are independent containment tests: `x: Literal[\"a\"] = \": note:\"` is counted as an error *and* as a note, only_notes() holds and mypy exits 0 although it found an error")
     else:
         r.ok(key, f.loc())
+
+
+def run_code_selection_is_keyed(chk: Check, ix) -> None:
+    """R13.16: the option values that decide whether a code is enabled are part of the cache validity key."""
+    r16 = chk.rule("R13.16", "the diagnostics of a module that is fresh in the cache are replayed as they were stored, i.e. as filtered by Errors.is_error_code_enabled() in the run that wrote them. Disabling or enabling a code in a later run removes or adds 'precisely the diagnostics carrying that code' only if the record is invalidated, so every Options attribute that is_error_code_enabled() reads (the *effective* per-module sets, which apply_changes() accumulates over config sections while the raw lists are replaced per section) is in OPTIONS_AFFECTING_CACHE (evaluated constant)", floor=2)
+    f = ix.func("mypy.errors.Errors.is_error_code_enabled")
+    mopt = ix.module("mypy.options")
+    key = set(ix.const_eval(mopt, mopt.assigns["OPTIONS_AFFECTING_CACHE"]))
+    read = sorted({a.attr for a in ast.walk(f.node) if isinstance(a, ast.Attribute) and norm(a.value) in ("self.options", "options")})
+    if len(read) < 2:
+        raise AnalysisError(f"Errors.is_error_code_enabled reads {read} from the options (expected the disabled and enabled code sets)")
+    for o in read:
+        k = f"is_error_code_enabled: Options.{o} is part of the cache key"
+        if o in key:
+            r16.ok(k, f.loc())
+        else:
+            r16.violation(k, "mypy/options.py", f"`{o}` decides which diagnostics a run stores for a module but is not in OPTIONS_AFFECTING_CACHE: with a per-module config section (which resets the raw disable_error_code / enable_error_code lists to []) a changed --disable-error-code / --enable-error-code leaves the module's record fresh, and the previous run's diagnostics and exit status are replayed")
